@@ -30,6 +30,62 @@ def _ret(fi):
     return r[0]
 
 
+def _inf_locals(prog, inf, step, c_inf, rp_pos):
+    """names of infiltration's surface-block locals by provenance:
+       runoff / runoff formal: the returned runoff total (position feeding the step's Runoff column) = runoff + <rainfall_partition formal>
+       f_in: the other rainfall_partition formal;  runoff_ini: the name the closing block compares runoff with;
+       to_store: the name the first infiltration loop runs down to 0;  infl_tot: f_in + ponding"""
+    from ..cp import step_local
+    ret = _ret(inf)
+    tg = None
+    for n in walk_no_nested(step.node):
+        if isinstance(n, ast.Assign) and n.value is c_inf and isinstance(n.targets[0], ast.Tuple):
+            tg = n.targets[0].elts
+    col_run = step_local(prog, "col:Runoff")
+    pos = [i for i, t in enumerate(tg or []) if isinstance(t, ast.Name) and t.id == col_run]
+    if len(pos) != 1:
+        raise AnalysisError("infiltration: the returned runoff does not reach the Runoff column by a plain local")
+    rp_formals = set(rp_pos.values())
+    e = ret.value.elts[pos[0]]
+    defs = [e] if isinstance(e, ast.BinOp) else \
+        [n.value for n in walk_no_nested(inf.node) if isinstance(n, ast.Assign) and isinstance(n.targets[0], ast.Name)
+         and isinstance(e, ast.Name) and n.targets[0].id == e.id and isinstance(n.value, ast.BinOp)]
+    runoff = f_r0 = None
+    for d in defs:
+        ops = [d.left, d.right]
+        if isinstance(d.op, ast.Add) and all(isinstance(o, ast.Name) for o in ops):
+            ids = [o.id for o in ops]
+            if len(set(ids) & rp_formals) == 1:
+                f_r0 = (set(ids) & rp_formals).pop()
+                runoff = [i for i in ids if i != f_r0][0]
+    if runoff is None or len(rp_formals) != 2:
+        raise AnalysisError("infiltration: the returned runoff total is no longer <runoff of the day> + <rainfall_partition's runoff>")
+    f_in = (rp_formals - {f_r0}).pop()
+    cmp_ = [n for n in walk_no_nested(inf.node) if isinstance(n, ast.Compare) and isinstance(n.left, ast.Name) and n.left.id == runoff
+            and len(n.comparators) == 1 and isinstance(n.comparators[0], ast.Name)]
+    if len(cmp_) != 1:
+        raise AnalysisError("infiltration: the closing bund re-routing test (runoff > initial runoff) vanished")
+    runoff_ini = cmp_[0].comparators[0].id
+    loops = sorted((n for n in walk_no_nested(inf.node) if isinstance(n, ast.While)), key=lambda n: n.lineno)
+    to_store = None
+    for w in loops[:1]:
+        for c in ast.walk(w.test):
+            if isinstance(c, ast.Compare) and isinstance(c.left, ast.Name) and isinstance(c.ops[0], ast.Gt) \
+                    and isinstance(c.comparators[0], ast.Constant) and c.comparators[0].value == 0:
+                to_store = c.left.id
+    if to_store is None:
+        raise AnalysisError("infiltration: the infiltration loop `while <to store> > 0` vanished")
+    f_pond = next((inf.params[i] for i, a in enumerate(c_inf.args) if isinstance(a, ast.Attribute) and a.attr == "surface_storage"), None)
+    infl_tot = None
+    for n in walk_no_nested(inf.node):
+        if isinstance(n, ast.Assign) and isinstance(n.targets[0], ast.Name) and isinstance(n.value, ast.BinOp) and isinstance(n.value.op, ast.Add) \
+                and {getattr(n.value.left, "id", None), getattr(n.value.right, "id", None)} == {f_in, f_pond}:
+            infl_tot = n.targets[0].id
+    if infl_tot is None:
+        raise AnalysisError("infiltration: the total surface water (inflow + ponding) local vanished")
+    return {"f_in": f_in, "f_r0": f_r0, "runoff": runoff, "runoff_ini": runoff_ini, "to_store": to_store, "infl_tot": infl_tot}
+
+
 def surface_bookkeeping(chk, prog, inf, step, c_inf, rp_pos, names_rp):
     """Conservation templates of the surface block of infiltration (linear, checked on every path):
        S1: ToStore + ponding + RunoffIni == Infl + ponding_in      after the surface block
@@ -37,18 +93,11 @@ def surface_bookkeeping(chk, prog, inf, step, c_inf, rp_pos, names_rp):
     where = f"{inf.module}:{inf.qualname}"
     params = inf.params
     f_pond = next((params[i] for i, a in enumerate(c_inf.args) if isinstance(a, ast.Attribute) and a.attr == "surface_storage"), None)
-    names = {n.id for n in ast.walk(inf.node) if isinstance(n, ast.Name)}
-    need = ["ToStore", "RunoffIni", "Runoff", "InflTot"]
-    if f_pond is None or any(x not in names for x in need):
-        raise AnalysisError("infiltration: anchors of the surface bookkeeping (ponding formal, ToStore, RunoffIni, Runoff, InflTot) vanished")
-    # incoming infiltration formal: the rainfall_partition result that the function clamps with max(.,0)
-    f_in = None
-    for n in walk_no_nested(inf.node):
-        if isinstance(n, ast.Assign) and isinstance(n.value, ast.Call) and isinstance(n.value.func, ast.Name) and n.value.func.id == "max" \
-                and isinstance(n.targets[0], ast.Name) and n.targets[0].id in rp_pos.values():
-            f_in = n.targets[0].id
-    if f_in is None:
-        raise AnalysisError("infiltration: the clamp of the incoming infiltration vanished")
+    if f_pond is None:
+        raise AnalysisError("infiltration: the ponding formal (actual .surface_storage) vanished")
+    # the locals of the surface block, identified by their place in the computation rather than by spelling
+    L = _inf_locals(prog, inf, step, c_inf, rp_pos)
+    f_in, ToStore, RunoffIni, Runoff, InflTot = L["f_in"], L["to_store"], L["runoff_ini"], L["runoff"], L["infl_tot"]
     f_bunds = next((params[i] for i, a in enumerate(c_inf.args) if isinstance(a, ast.Attribute) and a.attr == "bunds"), None)
     f_zb = next((params[i] for i, a in enumerate(c_inf.args) if isinstance(a, ast.Attribute) and a.attr == "z_bund"), None)
     if not (f_bunds and f_zb):
@@ -56,13 +105,13 @@ def surface_bookkeeping(chk, prog, inf, step, c_inf, rp_pos, names_rp):
     base = Sym(prog, inf)
     flow_nodes = base.cfg.live_nodes()
     anchors = [n for n in flow_nodes if isinstance(n.ast, ast.Assign) and isinstance(n.ast.targets[0], ast.Name)
-               and n.ast.targets[0].id == "Runoff" and isinstance(n.ast.value, ast.Constant) and n.ast.value.value == 0
+               and n.ast.targets[0].id == Runoff and isinstance(n.ast.value, ast.Constant) and n.ast.value.value == 0
                and n.id in base.state_in]
     if not anchors:
         raise AnalysisError("infiltration: `Runoff = 0` anchor after the surface block vanished")
     a0 = min(anchors, key=lambda n: n.ast.lineno)
     tests = [n for n in flow_nodes if n.kind == "test" and isinstance(n.ast, ast.Compare) and isinstance(n.ast.left, ast.Name)
-             and n.ast.left.id == "Runoff" and isinstance(n.ast.comparators[0], ast.Name) and n.ast.comparators[0].id == "RunoffIni"
+             and n.ast.left.id == Runoff and isinstance(n.ast.comparators[0], ast.Name) and n.ast.comparators[0].id == RunoffIni
              and n.id in base.state_in]
     if len(tests) != 1:
         raise AnalysisError("infiltration: the closing bund re-routing block `if Runoff > RunoffIni` vanished")
@@ -79,11 +128,11 @@ def surface_bookkeeping(chk, prog, inf, step, c_inf, rp_pos, names_rp):
     for bunds, zb in ((False, 0.0), (True, 1.0), (True, 0.0)):
         label = f"bunds={bunds}, z_bund{'>' if zb else '<='}0.001"
         chk.valuation("infiltration: " + label)
-        sym = Sym(prog, inf, templates={"S1": {"ToStore": 1, f_pond: 1, "RunoffIni": 1, f_in: -1}, "S2": {f_pond: 1, "Runoff": 1}},
-                  consts={f_bunds: bunds}, test_consts={f_zb: zb}, force={"InflTot > 0": True}, reset_at={"S2": t0.id, "S1": s1_start})
+        sym = Sym(prog, inf, templates={"S1": {ToStore: 1, f_pond: 1, RunoffIni: 1, f_in: -1}, "S2": {f_pond: 1, Runoff: 1}},
+                  consts={f_bunds: bunds}, test_consts={f_zb: zb}, force={f"{InflTot} > 0": True}, reset_at={"S2": t0.id, "S1": s1_start})
         # S1: after the surface block  ToStore + ponding + RunoffIni == Infl(now) + ponding(entry)
         st = sym.state_in.get(a0.id)
-        construct = f"ToStore + {f_pond} + RunoffIni == {f_in} + {f_pond}_in after the surface block | {label}"
+        construct = f"to_store + ponding + initial_runoff == inflow + ponding_in after the surface block | {label}"
         if st is None:
             chk.error(f"C02.c: anchor unreachable on valuation {label}")
             continue
@@ -98,8 +147,8 @@ def surface_bookkeeping(chk, prog, inf, step, c_inf, rp_pos, names_rp):
         before, aft = sym.template_at("S2", t0.id), sym.template_at("S2", after)
         # template_at gives the value in the state *before* the node; the reset happens at t0 itself, so recompute
         st0 = sym.state_in[t0.id]
-        before = A.add(st0.env.get(f_pond, A.atom(f_pond)), st0.env.get("Runoff", A.atom("Runoff")))
-        construct = f"{f_pond} + Runoff unchanged by the bund re-routing block | {label}"
+        before = A.add(st0.env.get(f_pond, A.atom(f_pond)), st0.env.get(Runoff, A.atom(Runoff)))
+        construct = f"ponding + runoff unchanged by the bund re-routing block | {label}"
         if aft is not None and A.equal(before, aft):
             chk.ok("C02.c", where, construct, "template invariant on every path of the valuation")
         else:
